@@ -81,8 +81,10 @@ def run(tier):
         # images whose last instruction is cut by the top of memory / by END: every pattern x every cut position (a sweep, no chance)
         specs = ctldrv.cut_specs(sd if tier == 'quick' else None)
         cuts = pool.map(ctldrv.cut_cases, [(specs[k::16], wd, k) for k in range(16)])
+        # sub-ranges of traced programs: the map file has the whole trace (END itself, addresses below START and above END)
+        beys = pool.map(ctldrv.beyond_cases, [(sd * 67 + k, 40 if tier == 'quick' else 500, wd) for k in range(16)])
     ft = [c for p in fts for c in p]
-    out = [c for p in outs for c in p] + [c for p in rsts for c in p] + [c for p in cuts for c in p]
+    out = [c for p in outs for c in p] + [c for p in rsts for c in p] + [c for p in cuts for c in p] + [c for p in beys for c in p]
     log('C14: %d find-terminal calls, %d sna2ctl runs' % (len(ft), len(out)))
     cases = [{k: c[k] for k in FT_KEYS} for c in ft] + [{k: c[k] for k in OUT_KEYS} for c in out]
     full = ft + out
@@ -121,6 +123,16 @@ def run(tier):
     rep.extra['cut_runs_top_of_memory_without_e'] = sum(1 for c in out if c['image_kind'] == 'top' and c.get('cut_missing') and '-e' not in c['args'])
     if not rep.extra['cut_runs_top_of_memory_without_e']:
         raise MachineryError('vacuous C14 run: no image cut by the top of memory without -e')
+    # code maps that list addresses outside [START, END): per format, maps with END itself / anything below START / above END
+    for fmt in ctldrv.MAP_FORMATS:
+        mm = [c for c in out if c['map'] and c['mapfmt'] == fmt and c['end'] < 65536]
+        n_end = sum(1 for c in mm if c['end'] in c.get('map_outside', ()))
+        n_below = sum(1 for c in mm if any(a < c['start'] for a in c.get('map_outside', ())))
+        n_above = sum(1 for c in mm if any(a > c['end'] for a in c.get('map_outside', ())))
+        rep.extra['maps_%s' % fmt] = {'runs': len(mm), 'with_END': n_end, 'with_below_START': n_below, 'with_above_END': n_above,
+                                      'END_is_jump_target': sum(1 for c in mm if c.get('end_is_target') and c['end'] in c['map_outside'])}
+        if not (n_end and n_below and n_above and rep.extra['maps_%s' % fmt]['END_is_jump_target']):
+            raise MachineryError('vacuous C14 run: code maps in format %s: %s' % (fmt, rep.extra['maps_%s' % fmt]))
     for c in ft:
         rep.count(('ft', tuple(c['len']), tuple(c['isend']), str(c['pre']), c['from'], c['limit'], c['ctl']))
     for c in out:
@@ -145,6 +157,9 @@ def run(tier):
                 'opcode slot (1792) once in straight-line images with -C; rst: programs whose RST routines step over 1/2 inline argument '
                 'bytes (values mostly opcodes of jumps/returns, followed by 2-4 byte instructions), traced with those routines, x -m in 5 '
                 'formats / none x -r / none x RSTHandlerConfig (skoolkit.ini: as the program does, default 8:B, something else); '
+                'code maps: 8 formats (Z80 / SpecEmu map, rzxplay, Fuse profile, Spud / SpecEmu / Zero dec+hex logs; logs unsorted with '
+                'repeats), a share lists addresses outside the range too (END, START-1, START-k, END+1, END+k, 65535); beyond: sub-ranges of '
+                'traced programs with END at an executed CALL/JP target and the whole trace in the map; '
                 'top/cut: 49 instruction patterns (every prefix class, undefined slots) x every cut position x 4 preambles x {image ends at '
                 '65535 with / without -e, explicit -e below the top with the rest of the instruction in memory} x code map (none, straight '
                 'line with / without the cut instruction) x -r x -C (quick: 3 of the 4 preambles and one -r/-C combination per placement, rotating with the seed); '
@@ -166,7 +181,7 @@ def replay(path):
     elif rp.get('kind') == 'out':
         replaylib.need(rp, path, 'image', 'org', 'args', 'map', 'strict', 'start', 'end')
         # the format of the code map file was not recorded by older runs: every format then
-        fmts = [rp['mapfmt']] if 'mapfmt' in rp else (['z80', 'specemu', 'rzxplay', 'fuse', 'spud'] if rp['map'] else [''])
+        fmts = [rp['mapfmt']] if 'mapfmt' in rp else (list(ctldrv.MAP_FORMATS) if rp['map'] else [''])
         full = [ctldrv.out_replay(os.path.join(wd, 'f%d' % i), rp, fmt) for i, fmt in enumerate(fmts)]
         cases = [{k: c[k] for k in OUT_KEYS} for c in full]
     elif 'tlc_output_tail' in rp:
